@@ -6,6 +6,7 @@
 -/
 import Cog.Sem.GoStrictSpec
 import Cog.Sem.GoValidateLemmas
+set_option linter.unusedSimpArgs false
 namespace Cog.Sem.C08
 open Cog.IR
 
@@ -612,5 +613,194 @@ theorem struct_agree {sdf : Ty → Json → DRes GoVal} {zero : Ty → DRes GoVa
   | num q => simp at h; subst h; simp only [strictStruct]; exact wrongType_agree_err
   | str s0 => simp at h; subst h; simp only [strictStruct]; exact wrongType_agree_err
   | arr xs => simp at h; subst h; simp only [strictStruct]; exact wrongType_agree_err
+
+/-! ### union of scalars -/
+
+def unionFinal : Option (List Fault) → List Fault
+  | none => []
+  | some ls => { path := [], kind := FaultKind.wrongType } :: ls
+
+theorem union_agree (ss : Schemas) (fuel n : Nat) (j : Json) (hj : j.isNull = false) :
+    ∀ (fields : List Field) (before : List (String × GoVal)) (r : Option (List Fault)),
+      allBranchesLeaf ss fields = true →
+      altFaults (fun b => strictFaults fuel ss b j) fields = .ok r →
+      Agree (decodeScalarUnionWith (goDecode n ss) j fields before) (unionFinal r)
+  | [], before, r, _, h => by
+    simp [altFaults] at h; subst h
+    simp only [decodeScalarUnionWith, unionFinal]
+    exact agree_err (by simp)
+  | f :: rest, before, r, hleaf, h => by
+    simp only [allBranchesLeaf, Bool.and_eq_true] at hleaf
+    simp only [altFaults, DRes.bind_eq_ok] at h
+    obtain ⟨l, hl, h⟩ := h
+    obtain ⟨fuel', rt', _, hr', hf'⟩ := strictFaults_ok_inv hl
+    have hb := leaf_agree ss n _ rt' _ fuel' _ j l hleaf.1 hr' hj hf'
+    simp only [decodeScalarUnionWith]
+    cases hd : goDecode n ss (f.ty.setMeta { f.ty.getMeta with nullable := false }) j with
+    | ok v =>
+      simp only []
+      refine ⟨fun he => by simp at he, fun w _ hn => ?_⟩
+      by_cases hle : l.isEmpty = true
+      · simp [hle] at h; subst h; rfl
+      · simp only [hle] at h
+        simp only [Bool.false_eq_true, if_false, DRes.bind_eq_ok] at h
+        obtain ⟨r', _, h⟩ := h
+        simp at h; subst h
+        cases r' with
+        | none => rfl
+        | some ls' =>
+          simp only [Option.map, unionFinal] at hn ⊢
+          have hnl : nullElemFree l = true := by
+            have : nullElemFree ({ path := [], kind := FaultKind.wrongType } :: (l ++ ls')) = true := hn
+            simp only [nullElemFree, List.all_cons, List.all_append, Bool.and_eq_true] at this ⊢
+            exact this.2.1
+          have := hb.2 v hd hnl
+          simp [this] at hle
+    | err =>
+      simp only []
+      have hl0 : l ≠ [] := hb.1 hd
+      have hle : l.isEmpty = false := by cases l <;> simp_all
+      simp only [hle, Bool.false_eq_true, if_false, DRes.bind_eq_ok] at h
+      obtain ⟨r', hr', h⟩ := h
+      simp at h; subst h
+      have ihr := union_agree ss fuel n j hj rest (before ++ [(f.name, .nil)]) r' hleaf.2 hr'
+      refine ⟨fun he => ?_, fun w hw hn => ?_⟩
+      · cases r' with
+        | none => exact absurd rfl (ihr.1 he)
+        | some ls' => simp [unionFinal, Option.map]
+      · cases r' with
+        | none => rfl
+        | some ls' =>
+          simp only [Option.map, unionFinal] at hn ⊢
+          have hn' : nullElemFree (unionFinal (some ls')) = true := by
+            simp only [unionFinal, nullElemFree, List.all_cons, List.all_append, Bool.and_eq_true] at hn ⊢
+            exact ⟨hn.1, hn.2.2⟩
+          have := ihr.2 w hw hn'
+          simp [unionFinal] at this
+    | unsup w => simp only []; exact agree_unsup _ _
+    | fuel => simp only []; exact agree_fuel _
+
+/-! ### main lemma -/
+
+theorem unions_leaf {ss : Schemas} (hU : scalarUnionsAreLeaf ss = true) {p n : String} {o : Obj}
+    (hl : Schemas.locateObject ss p n = some o) {fields : List Field} {g : List Ty} {info : DisjInfo} {m : Meta}
+    (hty : o.ty = .struct fields g (some ("disjunction_of_scalars", info)) m) :
+    allBranchesLeaf ss fields = true := by
+  obtain ⟨s, h1, _, h3⟩ := locateObject_mem hl
+  simp only [scalarUnionsAreLeaf, List.all_eq_true] at hU
+  have := hU s h1 (n, o) h3
+  simp only [hty] at this
+  simpa using this
+
+theorem sd_agree (ss : Schemas) (hU : scalarUnionsAreLeaf ss = true) :
+    ∀ (fuel : Nat) (t : Ty) (j : Json) (fs : List Fault),
+      j.isNull = false → strictFaults fuel ss t j = .ok fs → Agree (sd fuel ss t j) fs
+  | 0, _, _, _, _, h => by simp [strictFaults] at h
+  | fuel + 1, t, j, fs, hj, h => by
+    have ih := sd_agree ss hU fuel
+    simp only [strictFaults] at h
+    simp only [sd]
+    cases hres : resolveRefs ss t with
+    | none => simp [hres] at h
+    | some rt =>
+      simp only [hres] at h ⊢
+      by_cases hse : (isScalarOrEnum rt || isCrefTy t) = true
+      · simp only [hse, if_true]
+        rw [Bool.or_eq_true] at hse
+        cases hse with
+        | inl h1 => exact leaf_agree ss _ t rt 1 fuel _ j fs (isScalarOrEnum_leaf hres h1 0) hres hj h
+        | inr h2 =>
+          cases t <;> simp [isCrefTy] at h2
+          rw [resolveRefs_nonref ss (by simp [Ty.isRef])] at hres
+          cases hres
+          simp [faultsAt] at h
+      · simp only [hse, Bool.false_eq_true, if_false]
+        have hse' : isScalarOrEnum rt = false := by
+          cases hx : isScalarOrEnum rt <;> simp_all
+        cases rt with
+        | scalar kd v cs m => simp [isScalarOrEnum] at hse'
+        | enum vs m => simp [isScalarOrEnum] at hse'
+        | array e m =>
+          simp only []
+          split
+          · rename_i hk
+            exact leaf_agree ss _ t _ _ fuel _ j fs (arrayOfKinds_leaf ss _ t hk) hres hj h
+          · simp only [faultsAt] at h
+            cases j with
+            | null => simp [Json.isNull] at hj
+            | arr xs =>
+              simp only at h ⊢
+              split
+              · exact agree_unsup _ _
+              · refine agree_map _ (mapRes_idx_agree (elem_agree ?_) xs 0 fs h)
+                intro x l hx hl
+                exact ih e x l hx hl
+            | _ => simp at h; subst h; exact wrongType_agree_err
+        | map idx e m =>
+          simp only []
+          split
+          · rename_i hk
+            exact leaf_agree ss _ t _ _ fuel _ j fs (mapOfKinds_leaf ss _ t hk) hres hj h
+          · split
+            · simp only [faultsAt] at h
+              cases j with
+              | null => simp [Json.isNull] at hj
+              | obj kvs =>
+                simp only at h ⊢
+                refine agree_map _ (mapRes_key_agree (elem_agree ?_) kvs fs h)
+                intro x l hx hl
+                exact ih e x l hx hl
+              | _ => simp at h; subst h; exact wrongType_agree_err
+            · exact agree_unsup _ _
+        | struct fields g gi sm =>
+          simp only []
+          split
+          · exact agree_unsup _ _
+          · rename_i hisref
+            refine agree_map _ ?_
+            cases gi with
+            | none =>
+              simp only [faultsAt] at h ⊢
+              exact struct_agree (strictZero_ne_err ss _) fields j fs hj
+                (fun f _ mv l hmv hl => ih f.ty mv l hmv hl) h
+            | some hi =>
+              obtain ⟨hint, info⟩ := hi
+              simp only [faultsAt] at h ⊢
+              by_cases hh : hint = "disjunction_of_scalars"
+              · simp only [hh, if_true, DRes.bind_eq_ok] at h ⊢
+                obtain ⟨r, hr, hfs⟩ := h
+                have hfs' : fs = unionFinal r := by
+                  cases r <;> simp at hfs <;> simp [unionFinal, hfs]
+                subst hfs'
+                refine agree_map _ ?_
+                -- the struct is the type of some object, whose alternatives are leaf types
+                cases t with
+                | ref p n m =>
+                  have hrt : Schemas.resolveToType ss (resolveFuel ss) (.ref p n m)
+                      = some (.struct fields g (some (hint, info)) sm) := hres
+                  obtain ⟨p', n', o, hl, hty⟩ := resolveToType_obj ss _ p n m _ hrt (by simp [Ty.isRef])
+                  subst hh
+                  exact union_agree ss fuel fuel j hj fields [] r (unions_leaf hU hl hty) hr
+                | _ => simp [Ty.isRef] at hisref
+              · simp only [hh, if_false] at h ⊢
+                cases j with
+                | null => simp [Json.isNull] at hj
+                | obj ms =>
+                  simp only at h ⊢
+                  cases hd : lookupLast info.discriminator ms with
+                  | none => simp [hd] at h; subst h; exact agree_err (by simp)
+                  | some d =>
+                    simp only [hd] at h ⊢
+                    cases hu : unionTarget info d with
+                    | none => simp [hu] at h; subst h; exact agree_err (by simp)
+                    | some tn =>
+                      simp only [hu] at h ⊢
+                      cases hfb : fieldByRefName fields tn with
+                      | none => exact agree_unsup _ _
+                      | some bf =>
+                        simp only [hfb] at h ⊢
+                        exact agree_map _ (ih _ _ fs hj h)
+                | _ => simp at h; subst h; exact wrongType_agree_err
+        | _ => simp only []; exact agree_unsup _ _
 
 end Cog.Sem.C08
